@@ -707,8 +707,10 @@ def _write_evidence(check, tier, base_seed, agg, wall, wall_explore,
                   "indices": [0, agg["evals"] + agg["skipped"]]},
         "faults_fired": dict(sorted(agg["faults"].items())),
         "probes": dict(sorted(agg["probes"].items())),
-        "probes_expected_but_zero": [p for p in check.expected_probes
-                                     if agg["probes"].get(p, 0) == 0],
+        "probes_expected_but_zero": ([p for p in check.expected_probes
+                                      if agg["probes"].get(p, 0) == 0]
+                                     if tier == "thorough" else
+                                     "only evaluated in the thorough tier"),
         "determinism_rechecks": agg["rechecked"],
         "top_signatures": sorted(agg["sigs"].items(),
                                  key=lambda kv: (-kv[1], kv[0]))[:12],
